@@ -25,7 +25,7 @@ LIST_MUTATORS = {'append', 'extend', 'insert', 'pop', 'remove', 'clear', 'sort',
 ETREE_MUTATORS = {'set', 'append', 'remove', 'insert', 'clear', 'extend', 'addnext',
                   'addprevious', 'replace'}
 OPERAND_SOURCES = {'get_argument', 'get_operands', 'get_atomized_operand', 'atomization',
-                   'data_value'}
+                   'evaluate', 'data_value'}
 
 
 def phases(ctx):
@@ -356,7 +356,8 @@ def r05_3(ctx, counts) -> RuleResult:
         'R05.3', 'OPERAND-IMMUTABLE',
         'In dynamic-phase functions, a value that flows (local def-use, tuple unpacking '
         'included) from get_argument/get_operands/get_atomized_operand/atomization/data_value, '
-        'from context.item or from context.variables[…] is not mutated: no attribute store, no '
+        'from the evaluate() of an operand token (a variable reference may hand out the bound '
+        'value itself), from context.item or from context.variables[…] is not mutated: no attribute store, no '
         'subscript store, no list/dict mutator call on it. Values rebound to a converted copy '
         '(op = f(op)) lose the taint.')
     n = 0
